@@ -75,6 +75,7 @@ Section NPNum.
   Definition nn_dot_mt (A B : mat) : mat := map (fun r => map (vdot r) B) A.
   (* w < s elementwise, any(...), and the maximum of a non-negative 1-D array (np.abs(w).max()) *)
   Definition nn_lt_vs (v : vec) (s : t) : list bool := map (fun a => oltb O a s) v.
+  Definition nn_le_vs (v : vec) (s : t) : list bool := map (fun a => oleb O a s) v.
   Definition nn_any (bs : list bool) : bool := existsb (fun b => b) bs.
   Definition nn_max_v (v : vec) : t := fold_right (fun a m => omax O a m) (o0 O) v.
   (* ---- index-tabulated idioms (NCA / MLKR): entry (i, j) of an n x m array given as a function of the indices ---- *)
